@@ -87,16 +87,17 @@ func hx(s string) string {
 	if s == "" {
 		return "-"
 	}
-	return hex.EncodeToString([]byte(s))
+	// canonical form: invalid UTF-8 bytes become U+FFFD, as the rune-level model sees them
+	return hex.EncodeToString([]byte(string([]rune(s))))
 }
 
 func sexprExpr(e ast.Expr) string {
 	switch v := e.(type) {
 	case nil:
-		return "nil"
+		return "NILEXPR" // a missing expression: never legitimate where an expression is required
 	case *ast.NumberLit:
 		if v == nil {
-			return "nil"
+			return "NILEXPR"
 		}
 		if v.IsFloat {
 			return fmt.Sprintf("N(f:%s)", wire.FStr(v.FloatVal))
@@ -183,20 +184,27 @@ func sexprNode(n ast.Node) string {
 		for i, c := range v.Cases {
 			cs[i] = fmt.Sprintf("CS(%s;%s)", sexprExpr(c.Condition), sexprBlock(c.Body))
 		}
-		return fmt.Sprintf("SW(%s;%s;%s)", sexprExpr(v.Condition), strings.Join(cs, ","), sexprBlock(v.Default))
+		cond := "nil"
+		if v.Condition != nil {
+			cond = sexprExpr(v.Condition)
+		}
+		return fmt.Sprintf("SW(%s;%s;%s)", cond, strings.Join(cs, ","), sexprBlock(v.Default))
 	case *ast.FnStmt:
 		return fmt.Sprintf("FN(%s;%s;%s)", hx(v.FunVal.Val), sexprArgs(v.Args), sexprBlock(v.Body))
 	case *ast.WhileStmt:
 		return fmt.Sprintf("W(%s;%s)", sexprExpr(v.Condition), sexprBlock(v.WhileBlock))
 	case *ast.ForStmt:
-		ini, post := "nil", "nil"
+		ini, post, cond := "nil", "nil", "nil"
+		if v.Cond != nil {
+			cond = sexprExpr(v.Cond)
+		}
 		if v.Init != nil {
 			ini = sexprNode(v.Init)
 		}
 		if v.Post != nil {
 			post = sexprNode(v.Post)
 		}
-		return fmt.Sprintf("FOR(%s;%s;%s;%s)", ini, sexprExpr(v.Cond), post, sexprBlock(v.Body))
+		return fmt.Sprintf("FOR(%s;%s;%s;%s)", ini, cond, post, sexprBlock(v.Body))
 	case ast.Expr:
 		return sexprExpr(v)
 	}
